@@ -4,12 +4,13 @@ import OFV.Driver.OpsC15
 import OFV.Driver.OpsC19
 import OFV.Driver.OpsOF
 import OFV.Driver.OpsStream
+import OFV.Driver.OpsC17
 namespace OFV.Driver
 open OFV
 
 def families : List (String × List (String × Handler)) :=
   [("C16", C16.handlers), ("C15", C15.handlers), ("C18", C18.handlers), ("C19", C19.handlers), ("OF", OF.handlers),
-   ("C10", Stream.handlersC10), ("C11", Stream.handlersC11), ("C14", Stream.handlersC14)]
+   ("C10", Stream.handlersC10), ("C11", Stream.handlersC11), ("C14", Stream.handlersC14), ("C17", C17.handlers)]
 
 structure Stats where
   lines : Nat := 0
